@@ -42,6 +42,8 @@ FLOORS = {
                                                     "queue.do_level_completed": 20000,
                                                     "queue.do_level_ran_dry": 6000}},
 }
+# W5: the repository's own test suite runs once under these ambient monitors (thorough tier)
+W5_MONITORS = ['queue']
 CASE_TIMEOUT = {"quick": 30, "thorough": 60}
 SIZES = {"quick": 5000, "thorough": 100000}
 
